@@ -194,3 +194,16 @@ func BytesList(bs [][]byte) string {
 	}
 	return List("list N", items)
 }
+
+// Str prints a Go string as a Coq string literal (bytes as they are; '"' doubled), scoped.
+func Str(s string) string {
+	return "\"" + strings.ReplaceAll(s, "\"", "\"\"") + "\"%string"
+}
+
+// ZBig prints an arbitrary decimal integer literal (already formatted, may start with '-') as a Coq Z.
+func ZBig(dec string) string {
+	if strings.HasPrefix(dec, "-") {
+		return "(" + dec + ")%Z"
+	}
+	return dec + "%Z"
+}
